@@ -286,6 +286,9 @@ class Ctx:
         if not self.cov["samples"]:
             self.cov["samples"].append("(no sample recorded)")
         evdir = os.environ.get("VERIF_EVIDENCE_DIR") or os.path.join(ROOT, "evidence")
+        if self.prop.startswith("X") and not os.environ.get("VERIF_EVIDENCE_DIR"):
+            # checks of specification parts that are not anchored in a listed property (./check X01 ...)
+            evdir = os.path.join(ROOT, "evidence_extra")
         os.makedirs(evdir, exist_ok=True)
         with open(os.path.join(evdir, f"{self.prop}.json"), "w") as f:
             json.dump(ev, f, indent=1, sort_keys=True)
